@@ -621,14 +621,24 @@ func (k Keeper) GetMinDeposit(ctx sdk.Context, pricing types.Pricing) (sdk.Coins
 			return nil, err
 		}
 
-		basePrice = math.LegacyNewDecFromInt(price).Mul(rate).TruncateInt()
+		exchanged, err := exchange(math.LegacyNewDecFromInt(price), rate)
+		if err != nil {
+			return nil, err
+		}
+
+		basePrice = exchanged.TruncateInt()
 		if basePrice.IsZero() {
 			basePrice = math.OneInt()
 		}
 	}
 
 	// minimum deposit = max(price * minDepositMultiple, minDepositParam)
-	minDeposit := sdk.NewCoins(sdk.NewCoin(baseDenom, basePrice.Mul(minDepositMultiple)))
+	minDepositAmt, err := basePrice.SafeMul(minDepositMultiple)
+	if err != nil {
+		return nil, err
+	}
+
+	minDeposit := sdk.NewCoins(sdk.NewCoin(baseDenom, minDepositAmt))
 	if !minDeposit.IsZero() && minDeposit.IsAllLT(minDepositParam) {
 		minDeposit = minDepositParam
 	}
